@@ -11,6 +11,14 @@ package main
 
 import (
 	"fmt"
+
+	"github.com/ontio/ontology-crypto/keypair"
+	"github.com/ontio/ontology/core/payload"
+	"github.com/ontio/ontology/core/types"
+	"github.com/ontio/ontology/smartcontract/service/native/auth"
+	"verifharness/lib/iddrv"
+	"verifharness/lib/txgen"
+	"verifharness/lib/vf"
 )
 
 type scen struct {
@@ -729,4 +737,393 @@ func (s *scen) s4(q *[]func() bool, vi int) {
 		*q = append(*q, wdY(b, "delegator"))
 	}
 	s.runOut(q, func() string { return s.y })
+}
+
+// ---------------------------------------------------------------- S5: phantom assignments
+
+// S5: state changes that never become part of the ledger.  A role has a direct holder a and a
+// delegate x (a's delegation, live throughout) and lacks a function F that neither of them has
+// otherwise.  assignFuncsToRole(role, [F]) signed by the admin - alone, or followed in the same
+// invoke script by verifyToken(holder, F) - is (1) only pre-executed, (2) mined in a transaction
+// that faults after the calls (THROW), (3) mined in a transaction that runs out of gas after the
+// calls, (4) mined as a faulting transaction followed in the same block by verifyToken(holder, F)
+// and an unrelated successful transaction.  After each of them verifyToken(a|x, F) is probed
+// pre-executed and mined: the model, which none of this touches, says false.  Then F is assigned
+// for real (true).  The same for the other tables: a phantom assignOntIDsToRole(role, [y]) and a
+// phantom delegate(a -> y) leave the outsider y without the role, a phantom withdraw(a, x) leaves
+// x with it.
+func (h *hist) enqueueS5(k int) {
+	s := h.cast("S5", 1, 2)
+	if s == nil {
+		if s = h.cast("S5", 1, 1); s != nil {
+			s.count("cast:no-outsider")
+		}
+	}
+	if s == nil {
+		h.r.Count("scenario/S5/no-cast")
+		return
+	}
+	s.count("enqueued")
+	h.focus = []focusRef{{s.c, s.a}, {s.c, s.x}}
+	if s.y != "" {
+		h.focus = append(h.focus, focusRef{s.c, s.y})
+	}
+	var q []func() bool
+	q = append(q, s.stAdmin, s.stHolders, s.stFuncs)
+	s.first(&q, func() uint64 { return uint64(h.rng.Range(90, 120)) }) // outlasts the scenario
+	q = append(q, func() bool {
+		if !s.holds(s.a) || !s.holds(s.x) {
+			s.abort("holder-or-delegate-does-not-hold")
+		}
+		return false
+	})
+
+	// ---- the role -> functions table
+	var F string
+	q = append(q, func() bool {
+		now := h.env.PreTime()
+		var free []string
+		for _, f := range fns[:len(fns)-1] {
+			okA, _ := roleAnswer(s.c, s.a, f, now)
+			okX, _ := roleAnswer(s.c, s.x, f, now)
+			if !s.c.Funcs[s.role][f] && !okA && !okX {
+				free = append(free, f)
+			}
+		}
+		if len(free) == 0 {
+			s.count("no-unassigned-function")
+			return false
+		}
+		F = free[h.rng.Intn(len(free))]
+		return false
+	})
+	type tr struct{ what, transport string }
+	trs := []tr{{"assign-funcs", "pre-exec"}, {"assign-funcs+verify", "pre-exec"}, {"assign-funcs+verify", "mined-throw"},
+		{"assign-funcs+verify", "mined-out-of-gas"}, {"assign-funcs+verify", "mined-throw-then-other-txs"}}
+	for i := range trs {
+		t := trs[(k+i)%len(trs)]
+		first := i == 0
+		q = append(q, func() bool {
+			if F == "" || !s.adminOK() {
+				return false
+			}
+			holder := []string{s.a, s.x}[h.rng.Intn(2)]
+			k1, sg1, _ := h.control(s.c.Admin, "right")
+			code := authCode("assignFuncsToRole", &auth.FuncsToRoleParam{ContractAddr: s.c.Addr, AdminOntID: []byte(s.c.Admin), Role: []byte(s.role), FuncNames: []string{F}, KeyNo: k1})
+			calls := []string{fmt.Sprintf("assignFuncsToRole(%s,[%s]) by the admin keyNo=%d", s.role, F, k1)}
+			signers := sg1
+			if t.what != "assign-funcs" {
+				k2, sg2, _ := h.control(holder, "right")
+				code = append(code, s.verifyCode(holder, F, k2)...)
+				calls = append(calls, fmt.Sprintf("verifyToken(%s,%s) keyNo=%d", s.who(holder), F, k2))
+				signers = mergeKeys(sg1, sg2)
+			}
+			var follow []s5probe
+			if t.transport == "mined-throw-then-other-txs" {
+				follow = []s5probe{{holder, F}}
+				for _, f := range fns {
+					if s.c.Funcs[s.role][f] {
+						follow = append(follow, s5probe{s.a, f}) // the unrelated successful transaction
+						break
+					}
+				}
+			}
+			ran, inTx := s.phantom(t.what, t.transport, code, signers, calls, follow)
+			if ran {
+				s.count("funcs-phantom:" + t.what + ":" + t.transport)
+				if first {
+					s.count("funcs-phantom-played-first:" + t.what + ":" + t.transport)
+				}
+				if t.transport == "pre-exec" && t.what != "assign-funcs" {
+					s.count(fmt.Sprintf("funcs-phantom:verifyToken-inside-the-transaction=%v", inTx))
+				}
+			}
+			return ran
+		}, func() bool {
+			if F == "" {
+				return false
+			}
+			return s.minedBlock(nil, []s5probe{{s.a, F}, {s.x, F}}, "mined-probes-after-phantom:"+t.what+":"+t.transport)
+		})
+	}
+	q = append(q, func() bool {
+		if F == "" || !s.adminOK() {
+			return false
+		}
+		k, sg, cl := h.control(s.c.Admin, s.class())
+		rep := h.doAssignFuncs(s.c, s.role, []string{F}, s.c.Admin, k, sg, "scenario/"+cl)
+		s.count(fmt.Sprintf("real-assignment-after-phantoms=%v", rep))
+		return true
+	}, func() bool {
+		if F == "" || !s.c.Funcs[s.role][F] {
+			return false
+		}
+		if s.holds(s.a) && s.holds(s.x) {
+			s.count("holder-and-delegate-have-F-after-real-assignment")
+		}
+		return s.minedBlock(nil, []s5probe{{s.a, F}, {s.x, F}}, "mined-probes-after-real-assignment")
+	})
+
+	// ---- the identity -> roles table: direct assignment, delegation, withdrawal
+	roleFn := func(lackedBy string) string {
+		now := h.env.PreTime()
+		for _, f := range fns {
+			if ok, _ := roleAnswer(s.c, lackedBy, f, now); s.c.Funcs[s.role][f] && (lackedBy == "" || !ok) {
+				return f
+			}
+		}
+		return ""
+	}
+	pick := func() string { return []string{"pre-exec", "mined-throw", "mined-out-of-gas"}[h.rng.Intn(3)] }
+	outsider := func(name string, build func(f string) ([]byte, []*txgen.Key, string)) func() bool {
+		return func() bool {
+			if s.y == "" || len(h.liveKeys(s.y)) == 0 || s.c.Direct[s.y][s.role] || len(s.c.Deleg[s.y][s.role]) > 0 {
+				return false
+			}
+			f := roleFn(s.y)
+			if f == "" || !s.adminOK() || len(h.liveKeys(s.a)) == 0 {
+				return false
+			}
+			code, sg1, desc := build(f)
+			k2, sg2, _ := h.control(s.y, "right")
+			code = append(code, s.verifyCode(s.y, f, k2)...)
+			transport := pick()
+			ran, inTx := s.phantom(name, transport, code, mergeKeys(sg1, sg2), []string{desc, fmt.Sprintf("verifyToken(y,%s) keyNo=%d", f, k2)}, nil)
+			if ran {
+				s.count("ids-phantom:" + name + ":" + transport)
+				if transport == "pre-exec" {
+					s.count(fmt.Sprintf("ids-phantom:%s:verifyToken-inside-the-transaction=%v", name, inTx))
+				}
+				if !s.holds(s.y) {
+					s.count("outsider-holds-nothing-after-" + name)
+				}
+			}
+			return ran
+		}
+	}
+	probeY := func(tag string) func() bool {
+		return func() bool {
+			f := roleFn("")
+			if s.y == "" || f == "" || len(h.liveKeys(s.y)) == 0 {
+				return false
+			}
+			return s.minedBlock(nil, []s5probe{{s.y, f}, {s.x, f}}, "mined-probes-after-phantom:"+tag)
+		}
+	}
+	q = append(q, outsider("assign-ids+verify", func(f string) ([]byte, []*txgen.Key, string) {
+		k1, sg1, _ := h.control(s.c.Admin, "right")
+		return authCode("assignOntIDsToRole", &auth.OntIDsToRoleParam{ContractAddr: s.c.Addr, AdminOntID: []byte(s.c.Admin), Role: []byte(s.role), Persons: [][]byte{[]byte(s.y)}, KeyNo: k1}),
+			sg1, fmt.Sprintf("assignOntIDsToRole(%s,[y]) by the admin keyNo=%d", s.role, k1)
+	}), probeY("assign-ids+verify"), outsider("delegate+verify", func(f string) ([]byte, []*txgen.Key, string) {
+		k1, sg1, _ := h.control(s.a, "right")
+		return authCode("delegate", &auth.DelegateParam{ContractAddr: s.c.Addr, From: []byte(s.a), To: []byte(s.y), Role: []byte(s.role), Period: 60, Level: 1, KeyNo: k1}),
+			sg1, fmt.Sprintf("delegate(a->y,%s,period=60,level=1) keyNo=%d", s.role, k1)
+	}), probeY("delegate+verify"), func() bool {
+		// the reverse: a withdrawal that never happened leaves the delegate authorised
+		f := roleFn("")
+		if f == "" || !s.holds(s.x) || len(h.liveKeys(s.a)) == 0 || len(h.liveKeys(s.x)) == 0 {
+			return false
+		}
+		k1, sg1, _ := h.control(s.a, "right")
+		k2, sg2, _ := h.control(s.x, "right")
+		code := authCode("withdraw", &auth.WithdrawParam{ContractAddr: s.c.Addr, Initiator: []byte(s.a), Delegate: []byte(s.x), Role: []byte(s.role), KeyNo: k1})
+		code = append(code, s.verifyCode(s.x, f, k2)...)
+		transport := pick()
+		ran, inTx := s.phantom("withdraw+verify", transport, code, mergeKeys(sg1, sg2), []string{fmt.Sprintf("withdraw(a,x,%s) keyNo=%d", s.role, k1), fmt.Sprintf("verifyToken(x,%s) keyNo=%d", f, k2)}, nil)
+		if ran {
+			s.count("ids-phantom:withdraw+verify:" + transport)
+			if transport == "pre-exec" {
+				s.count(fmt.Sprintf("ids-phantom:withdraw+verify:verifyToken-inside-the-transaction=%v", inTx))
+			}
+			if s.holds(s.x) {
+				s.count("delegate-still-holds-after-withdraw+verify")
+			}
+		}
+		return ran
+	}, func() bool {
+		f := roleFn("")
+		if f == "" || len(h.liveKeys(s.x)) == 0 {
+			return false
+		}
+		return s.minedBlock(nil, []s5probe{{s.x, f}}, "mined-probes-after-phantom:withdraw+verify")
+	}, func() bool {
+		s.count("completed")
+		h.focus = nil
+		return false
+	})
+	h.queue = q
+}
+
+type s5probe struct{ caller, fn string }
+
+var (
+	codeThrow = []byte{0xf0}             // THROW: the script faults after the calls before it
+	codeSpin  = []byte{0x62, 0x00, 0x00} // JMP to itself: burns gas until the transaction's limit is reached
+)
+
+const spinGasLimit = 30000 // the native calls of a phantom script use a few thousand
+
+func mergeKeys(a, b []*txgen.Key) []*txgen.Key {
+	out := append([]*txgen.Key{}, a...)
+	for _, k := range b {
+		dup := false
+		for _, o := range out {
+			dup = dup || o == k
+		}
+		if !dup {
+			out = append(out, k)
+		}
+	}
+	return out
+}
+
+func (s *scen) verifyCode(caller, fn string, keyNo uint64) []byte {
+	return authCode("verifyToken", &auth.VerifyTokenParam{ContractAddr: s.c.Addr, Caller: []byte(caller), Fn: fn, KeyNo: keyNo})
+}
+
+// gasTx is env.Tx with a chosen gas limit (nonces from a range env.Tx never reaches; the scripts
+// carry the history's own identities, so transactions of different histories cannot collide).
+func (h *hist) gasTx(code []byte, signers []*txgen.Key, gasLimit uint64) (*types.Transaction, error) {
+	h.pnonce++
+	mt := &types.MutableTransaction{GasPrice: 0, GasLimit: gasLimit, TxType: types.InvokeNeo, Nonce: 0x70000000 + h.pnonce,
+		Payload: &payload.InvokeCode{Code: code}, Sigs: []types.Sig{}}
+	if len(signers) > 0 {
+		mt.Payer = signers[0].Address()
+	}
+	hash := mt.Hash()
+	for _, k := range signers {
+		sig, err := k.Sign(hash[:])
+		if err != nil {
+			return nil, err
+		}
+		mt.Sigs = append(mt.Sigs, types.Sig{PubKeys: []keypair.PublicKey{k.Pub}, M: 1, SigData: [][]byte{sig}})
+	}
+	return mt.IntoImmutable()
+}
+
+// phantom runs the script so that nothing of it becomes part of the ledger.  inTx is the script's
+// own result (the last call's answer) where the transport shows it (pre-execution).
+func (s *scen) phantom(what, transport string, code []byte, signers []*txgen.Key, calls []string, follow []s5probe) (ran, inTx bool) {
+	h := s.h
+	step := map[string]interface{}{"op": "S5:phantom", "what": what, "transport": transport, "contract": s.c.Name, "script": calls, "tx_signers": labels(signers)}
+	if transport == "pre-exec" {
+		tx, err := h.env.ProbeTx(code, signers)
+		if err != nil {
+			h.dead = true
+			return false, false
+		}
+		var pr iddrv.PreResult
+		if p := vf.Catch(func() { pr = h.env.Pre(tx) }); p != nil {
+			h.r.Violation("panic-in-pre-execution", fmt.Sprint(p), h.witness(map[string]interface{}{"step": step}))
+			h.dead = true
+			return false, false
+		}
+		step["time"], step["pre_exec_ok"], step["pre_exec_result"] = h.env.PreTime(), pr.OK, pr.Hex
+		h.log = append(h.log, step)
+		if !pr.OK {
+			s.count("phantom-script-failed-in-pre-execution:" + what)
+		}
+		return true, pr.True()
+	}
+	var tx *types.Transaction
+	var err error
+	if transport == "mined-out-of-gas" {
+		tx, err = h.gasTx(append(append([]byte{}, code...), codeSpin...), signers, spinGasLimit)
+	} else {
+		tx, err = h.env.Tx(append(append([]byte{}, code...), codeThrow...), signers)
+	}
+	if err != nil {
+		h.r.Inconclusive(fmt.Sprintf("history %d: tx build: %v", h.idx, err))
+		h.dead = true
+		return false, false
+	}
+	h.log = append(h.log, step)
+	if len(follow) > 0 {
+		step["followed_in_the_same_block_by"] = len(follow)
+		lead, ok := s.minedBlockRes([]*types.Transaction{tx}, follow, "same-block-probes-after-phantom:"+what)
+		if !ok {
+			return false, false
+		}
+		step["time"] = h.env.LastTs
+		s.failed(lead[0], what, transport)
+		return true, false
+	}
+	var res []iddrv.TxResult
+	var cerr error
+	if p := vf.Catch(func() { res, cerr = h.env.Commit([]*types.Transaction{tx}, h.nextTs()) }); p != nil {
+		h.r.Violation("panic-in-block-execution", fmt.Sprint(p), h.witness(nil))
+		h.dead, h.broken = true, true
+		return false, false
+	}
+	if cerr != nil {
+		h.r.Inconclusive(fmt.Sprintf("history %d: commit: %v", h.idx, cerr))
+		h.dead, h.broken = true, true
+		return false, false
+	}
+	step["time"] = h.env.LastTs
+	s.failed(res[0], what, transport)
+	return true, false
+}
+
+// failed: the mined phantom transaction must have failed (else it was no phantom: harness error).
+func (s *scen) failed(res iddrv.TxResult, what, transport string) {
+	if res.State != 0 {
+		s.h.r.Inconclusive(fmt.Sprintf("history %d: S5 phantom transaction (%s, %s) did not fail", s.h.idx, what, transport))
+		s.h.dead = true
+	}
+}
+
+func (s *scen) minedBlock(lead []*types.Transaction, probes []s5probe, tag string) bool {
+	_, ok := s.minedBlockRes(lead, probes, tag)
+	return ok
+}
+
+// minedBlockRes commits one block: the leading transactions, then one verifyToken transaction per
+// probe (the caller's right key), each judged against the model at the block's time.
+func (s *scen) minedBlockRes(lead []*types.Transaction, probes []s5probe, tag string) ([]iddrv.TxResult, bool) {
+	h := s.h
+	type pk struct {
+		keyNo uint64
+		sg    []*txgen.Key
+	}
+	txs := append([]*types.Transaction{}, lead...)
+	var pks []pk
+	for _, p := range probes {
+		k, sg, _ := h.control(p.caller, "right")
+		tx, err := h.env.Tx(s.verifyCode(p.caller, p.fn, k), sg)
+		if err != nil {
+			h.dead = true
+			return nil, false
+		}
+		txs = append(txs, tx)
+		pks = append(pks, pk{k, sg})
+	}
+	ts := h.nextTs()
+	var res []iddrv.TxResult
+	var cerr error
+	if p := vf.Catch(func() { res, cerr = h.env.Commit(txs, ts) }); p != nil {
+		h.r.Violation("panic-in-block-execution", fmt.Sprint(p), h.witness(nil))
+		h.dead, h.broken = true, true
+		return nil, false
+	}
+	if cerr != nil {
+		h.r.Inconclusive(fmt.Sprintf("history %d: commit: %v", h.idx, cerr))
+		h.dead, h.broken = true, true
+		return nil, false
+	}
+	var desc []string
+	for _, p := range probes {
+		desc = append(desc, fmt.Sprintf("verifyToken(%s,%s)", s.who(p.caller), p.fn))
+	}
+	h.log = append(h.log, map[string]interface{}{"op": "S5:" + tag, "contract": s.c.Name, "time": ts, "leading_txs": len(lead), "in_block_probes": desc})
+	for i, p := range probes {
+		got := reported(res[len(lead)+i], "verifyToken")
+		want, why := h.answer(s.c, p.caller, p.fn, pks[i].keyNo, pks[i].sg, ts)
+		s.count(fmt.Sprintf("mined-probe=%v", want))
+		h.judge(s.c, p.caller, p.fn, pks[i].keyNo, pks[i].sg, "right", ts, got, want, why, "in-block")
+		if h.dead {
+			return res, false
+		}
+	}
+	return res, true
 }
